@@ -110,10 +110,10 @@ Proof.
   unfold picks. intros H. apply In_firstn_own in H. apply filter_In in H.
   destruct H as [H1 H2]. split; [lia|exact H1].
 Qed.
-Lemma cand_seq_In p ents pe pn cands n : In n (cand_seq p ents pe pn cands) -> In n cands.
+Lemma cand_seq_sh_In p ents pe cands sh n : In n (cand_seq_sh p ents pe cands sh) -> In n sh.
 Proof.
-  unfold cand_seq. rewrite in_flat_map. intros [e [_ H]].
-  apply picks_ent in H. destruct H as [_ H]. eapply In_apply_perm. exact H.
+  unfold cand_seq_sh. rewrite in_flat_map. intros [e [_ H]].
+  apply picks_ent in H. destruct H as [_ H]. exact H.
 Qed.
 
 (* ---------- the election loop ---------- *)
@@ -155,16 +155,38 @@ Proof.
       * intros e. rewrite count_node_ent_cons. specialize (H3 e). specialize (Hcnt1 e). lia.
 Qed.
 
-Lemma elect_ok_inv p ents epoch nodes pe pn vals vents :
-  elect_validators p ents epoch nodes pe pn = VOk vals vents ->
-  exists acc, fill p ents (cand_seq p ents pe pn (vcands p ents epoch nodes)) [] [] = Some (acc, vents) /\
+Lemma elect_ok_inv p ents pe cands sh vals vents :
+  elect_core p ents pe cands sh = VOk vals vents ->
+  exists acc, fill p ents (cand_seq_sh p ents pe cands sh) [] [] = Some (acc, vents) /\
               vals = sort_by fst acc /\ p_min p <= len acc /\ 1 <= len acc.
 Proof.
-  unfold elect_validators.
+  unfold elect_core.
   destruct (fill p ents _ [] []) as [[acc ve]|] eqn:Ef; [|discriminate].
   destruct (len acc =? 0) eqn:E0; [discriminate|].
   destruct (len acc <? p_min p) eqn:E1; [discriminate|].
   intros [= <- <-]. exists acc. split; [reflexivity|]. split; [reflexivity|]. lia.
+Qed.
+
+(* the election for ANY shuffled candidate list [sh] drawn from the candidates *)
+Theorem core_sound p ents epoch nodes pe sh vals vents :
+  (forall n, In n sh -> In n (vcands p ents epoch nodes)) ->
+  elect_core p ents pe (vcands p ents epoch nodes) sh = VOk vals vents ->
+  Forall (validator_ok p ents epoch nodes) vals /\
+  len vals <= N.max 1 (p_max p) /\ p_min p <= len vals /\ 1 <= len vals.
+Proof.
+  intros Hsh H. destruct (elect_ok_inv _ _ _ _ _ _ _ H) as [acc [Hf [-> [Hmin Hpos]]]].
+  assert (Hl0 : len (@nil (N * vinfo)) < N.max 1 (p_max p)) by (rewrite len_nil; lia).
+  destruct (fill_sound _ _ _ _ _ _ _ Hf Hl0) as [H1 [H2 _]].
+  rewrite (len_perm _ _ (sort_by_perm fst acc)).
+  split; [|lia].
+  rewrite Forall_forall. intros kv Hkv. apply In_sort_by in Hkv.
+  destruct (H1 kv Hkv) as [[]|[n [pw [Hn [Hp ->]]]]].
+  apply cand_seq_sh_In in Hn. apply Hsh in Hn. apply vcands_spec in Hn. destruct Hn as [Hn [Hlive Hc]].
+  apply live_spec in Hlive. destruct Hlive as [Hfr Hexp].
+  exists n, pw. split; [exact Hn|]. split; [reflexivity|]. split; [exact Hfr|]. split; [exact Hexp|].
+  unfold is_vcand in Hc. apply andb_true_iff in Hc. destruct Hc as [Hc1 Hc2].
+  split; [exact Hc1|]. split; [apply orb_true_iff in Hc2; exact Hc2|].
+  split; [exact Hp|]. eapply node_power_positive. exact Hp.
 Qed.
 
 (* every elected validator is a registered, unexpired, unfrozen node with the
@@ -175,19 +197,7 @@ Theorem elect_sound p ents epoch nodes pe pn vals vents :
   Forall (validator_ok p ents epoch nodes) vals /\
   len vals <= N.max 1 (p_max p) /\ p_min p <= len vals /\ 1 <= len vals.
 Proof.
-  intros H. destruct (elect_ok_inv _ _ _ _ _ _ _ _ H) as [acc [Hf [-> [Hmin Hpos]]]].
-  assert (Hl0 : len (@nil (N * vinfo)) < N.max 1 (p_max p)) by (rewrite len_nil; lia).
-  destruct (fill_sound _ _ _ _ _ _ _ Hf Hl0) as [H1 [H2 _]].
-  rewrite (len_perm _ _ (sort_by_perm fst acc)).
-  split; [|lia].
-  rewrite Forall_forall. intros kv Hkv. apply In_sort_by in Hkv.
-  destruct (H1 kv Hkv) as [[]|[n [pw [Hn [Hp ->]]]]].
-  apply cand_seq_In in Hn. apply vcands_spec in Hn. destruct Hn as [Hn [Hlive Hc]].
-  apply live_spec in Hlive. destruct Hlive as [Hfr Hexp].
-  exists n, pw. split; [exact Hn|]. split; [reflexivity|]. split; [exact Hfr|]. split; [exact Hexp|].
-  unfold is_vcand in Hc. apply andb_true_iff in Hc. destruct Hc as [Hc1 Hc2].
-  split; [exact Hc1|]. split; [apply orb_true_iff in Hc2; exact Hc2|].
-  split; [exact Hp|]. eapply node_power_positive. exact Hp.
+  unfold elect_validators. apply core_sound. intros n Hn. eapply In_apply_perm. exact Hn.
 Qed.
 
 (* ---------- per-entity limit ---------- *)
@@ -231,17 +241,56 @@ Proof.
     + rewrite (count_picks_other p sh e a Hne). specialize (IH Hr). lia.
 Qed.
 
+Theorem core_per_entity p ents pe cands sh vals vents :
+  is_perm pe (length (usort (map n_ent cands))) ->
+  elect_core p ents pe cands sh = VOk vals vents ->
+  forall e, count_ent e vals <= p_per p.
+Proof.
+  intros Hpe H e. destruct (elect_ok_inv _ _ _ _ _ _ _ H) as [acc [Hf [-> _]]].
+  assert (Hl0 : len (@nil (N * vinfo)) < N.max 1 (p_max p)) by (rewrite len_nil; lia).
+  destruct (fill_sound _ _ _ _ _ _ _ Hf Hl0) as [_ [_ H3]].
+  rewrite (count_ent_perm e _ _ (sort_by_perm fst acc)).
+  specialize (H3 e). unfold cand_seq_sh in H3.
+  pose proof (count_flat_picks p sh e _ (by_stake_nodup p ents pe _ Hpe)) as H4.
+  assert (count_ent e (@nil (N * vinfo)) = 0) by reflexivity. lia.
+Qed.
+
 Theorem elect_per_entity p ents epoch nodes pe pn vals vents :
   is_perm pe (length (usort (map n_ent (vcands p ents epoch nodes)))) ->
   elect_validators p ents epoch nodes pe pn = VOk vals vents ->
   forall e, count_ent e vals <= p_per p.
+Proof. intros Hpe H. eapply core_per_entity; eassumption. Qed.
+
+(* ---------- VRF sortition ---------- *)
+Lemma vrf_collect_In beta l : forall seen b n,
+  In (b, n) (vrf_collect beta l seen) -> In n l /\ beta (n_id n) = Some b.
 Proof.
-  intros Hpe H e. destruct (elect_ok_inv _ _ _ _ _ _ _ _ H) as [acc [Hf [-> _]]].
-  assert (Hl0 : len (@nil (N * vinfo)) < N.max 1 (p_max p)) by (rewrite len_nil; lia).
-  destruct (fill_sound _ _ _ _ _ _ _ Hf Hl0) as [_ [_ H3]].
-  rewrite (count_ent_perm e _ _ (sort_by_perm fst acc)).
-  specialize (H3 e). unfold cand_seq in H3.
-  pose proof (count_flat_picks p (apply_perm pn (vcands p ents epoch nodes)) e _
-                (by_stake_nodup p ents pe _ Hpe)) as H4.
-  assert (count_ent e (@nil (N * vinfo)) = 0) by reflexivity. lia.
+  induction l as [|x r IH]; intros seen b n; cbn [vrf_collect]; [intros []|].
+  destruct (beta (n_id x)) as [bx|] eqn:E.
+  - destruct (memN bx seen).
+    + intros H. destruct (IH _ _ _ H) as [H1 H2]. split; [right; exact H1|exact H2].
+    + intros [[= <- <-]|H]; [split; [left; reflexivity|exact E]|].
+      destruct (IH _ _ _ H) as [H1 H2]. split; [right; exact H1|exact H2].
+  - intros H. destruct (IH _ _ _ H) as [H1 H2]. split; [right; exact H1|exact H2].
 Qed.
+Lemma vrf_sort_In beta l n : In n (vrf_sort beta l) -> In n l /\ has_pi beta n = true.
+Proof.
+  unfold vrf_sort. rewrite in_map_iff. intros [[b m] [<- H]]. apply In_sort_by in H.
+  apply vrf_collect_In in H. cbn [snd]. unfold has_pi. destruct H as [H1 H2]. rewrite H2. tauto.
+Qed.
+
+Theorem elect_sound_vrf p ents epoch nodes pe pn beta vals vents :
+  elect_validators_vrf p ents epoch nodes pe pn beta = VOk vals vents ->
+  Forall (validator_ok p ents epoch nodes) vals /\
+  len vals <= N.max 1 (p_max p) /\ p_min p <= len vals /\ 1 <= len vals.
+Proof.
+  unfold elect_validators_vrf. apply core_sound. intros n Hn.
+  destruct (len (filter (has_pi beta) (vcands p ents epoch nodes)) <? p_min p).
+  - eapply In_apply_perm. exact Hn.
+  - apply vrf_sort_In in Hn. tauto.
+Qed.
+Theorem elect_per_entity_vrf p ents epoch nodes pe pn beta vals vents :
+  is_perm pe (length (usort (map n_ent (vcands p ents epoch nodes)))) ->
+  elect_validators_vrf p ents epoch nodes pe pn beta = VOk vals vents ->
+  forall e, count_ent e vals <= p_per p.
+Proof. intros Hpe H. eapply core_per_entity; eassumption. Qed.
